@@ -564,7 +564,7 @@ def classify(case, obs):
         user_ret = any(u and o[0] == "ret" for u, d, o in invs)
         user_raise = any(u and o[0] == "raise" for u, d, o in invs)
         proxy_raise = any((not u) and o[0] == "raise" and o[1] == "ValueError" and d is not None
-                          and d[0] == "a2" and d[1] <= 1 for u, d, o in invs)
+                          and ((d[0] == "a2" and d[1] <= 1) or (d[0] == "df" and d[2] <= 1)) for u, d, o in invs)
         if not ok and fl.get("s12") and (r["acc"] or user_ret) and case["mode"] == "inject" \
                 and calls is not case["calls"] and i == case["inj"]["pos"]:
             found.append("S12-batch")
